@@ -13,19 +13,21 @@ import sys
 import vlib
 sys.path.insert(0, os.path.dirname(os.path.dirname(os.path.abspath(__file__))))
 import c17_layouts  # noqa: E402  (translator: field layouts of encode_offset32 from the source text)
+import c17_transcribed  # noqa: E402  (the C++ regions the models were transcribed from, as normalised text)
 from concurrent.futures import ThreadPoolExecutor
 
 # Thumb-2 branch formats: the tree is probed on every run (probe_t32). "pinned" = the defective packers of the pinned tree
 # (known findings C17/thumb32-*), "fixed" = fixes/C17-thumb32-branch-formats.patch applied. The model variant is chosen
 # accordingly (ml/c17_driver.ml argv[1]); the python oracle below always judges against the architecture, so as soon as
 # the known_findings lines are flipped to kind=fixed a returning defect is a VIOLATION with a concrete offset.
-LAYOUT_DEPENDENT = ("C17_layouts_current",)
+LAYOUT_DEPENDENT = ("C17_layouts_current", "C17_fixup_current", "C17_armutils_current")
 LAYOUT_TYPE_TO_TY = {"T32_ADR": "t32_adr", "T32_BLX": "t32_blx", "T32_B": "t32_b", "T32_BCond": "t32_bcond",
                      "A32_U23_0To3At0_4To7At8": "a32_u23_split", "A32_1To24At0_0At24": "a32_blx", "A64_ADR": "adr", "A64_ADRP": "adrp"}
+TYN_COQ = {"SignedOffset": 0, "UnsignedOffset": 1, "A64_ADR": 2, "A64_ADRP": 3}
 T32_VARIANT = {"v": "pp"}    # first letter: B.W/BL/BLX packer, second: B<c>.W packer; p = pinned (defective), f = fixed
 X86_MEM_CHECKED = {"v": "u"}   # "c": (Mem, Imm) ALU forms refuse a qword destination with a non-int32 immediate (fixed tree), "u": pinned
 X86_TM_CHECKED = {"v": "u"}    # "c": TEST r/m64, imm and MOV m64, imm refuse a non-int32 immediate (fixed tree), "u": pinned (truncates)
-X86_OPS = ["add", "or", "adc", "sbb", "and", "sub", "xor", "cmp", "test", "mov", "imul", "push"]
+X86_OPS = ["add", "or", "adc", "sbb", "and", "sub", "xor", "cmp", "test", "mov", "imul", "push", "shl", "sar", "ror", "rcl", "shld", "shrd"]
 NLIST = [2, 7, 8, 9, 12, 14, 16, 19, 21, 24, 25, 26, 31, 32, 33, 48, 63, 64]
 
 M64 = (1 << 64) - 1
@@ -240,7 +242,7 @@ def cross_validate_pseudocode(ck, model, rng, n):
     return len(cmds), bad
 
 
-BF_NAMES = ["bfxil", "sbfx", "ubfx", "bfi", "sbfiz", "ubfiz", "bfc", "bfm", "sbfm", "ubfm", "lsl", "lsr", "asr"]
+BF_NAMES = ["bfxil", "sbfx", "ubfx", "bfi", "sbfiz", "ubfiz", "bfc", "bfm", "sbfm", "ubfm", "lsl", "lsr", "asr", "ror"]
 
 
 def run_movwide(words, init):
@@ -268,6 +270,7 @@ def run_movwide(words, init):
 USED_FORMATS = [
     ("x86 rel8", TY["signed"], 1, 8, 0, 0), ("x86 rel32", TY["signed"], 4, 32, 0, 0),
     ("x86/abs 64-bit data", TY["signed"], 8, 64, 0, 0), ("data 16", TY["signed"], 2, 16, 0, 0),
+    ("unsigned data/address 16", TY["unsigned"], 2, 16, 0, 0), ("unsigned data/address 32 (x86 abs reloc)", TY["unsigned"], 4, 32, 0, 0),
     ("a64 imm19 (b.cond/cbz/ldr lit)", TY["signed"], 4, 19, 5, 2), ("a64 imm26 (b/bl)", TY["signed"], 4, 26, 0, 2),
     ("a64 imm14 (tbz)", TY["signed"], 4, 14, 5, 2), ("a64 adr", TY["adr"], 4, 21, 5, 0), ("a64 adrp", TY["adrp"], 4, 21, 5, 12),
 ]
@@ -356,6 +359,11 @@ def gen_stream(rng, tier):
         for _ in range(2000 if tier == "quick" else 200000):
             cmds.append("L %d %d" % (rng.getrandbits(m), m))
         cmds += ["L 0 %d" % m, "L %d %d" % ((1 << m) - 1, m)]
+        if m == 32:
+            # uint64 argument with garbage above bit 31 (C17_logical_imm32_upper_bits_ignored): valid and invalid low halves
+            for v in rng.sample(vals, 300) + [rng.getrandbits(32) for _ in range(300)] + [0, 0xFFFFFFFF]:
+                cmds.append("L %d 32" % (v | (rng.getrandbits(32) << 32)))
+                cmds.append("L %d 32" % (v | (0xFFFFFFFF << 32)))
     # A
     for v in [0, 1, 4095, 4096, 4097, 0xFFF000, 0xFFF001, 0x1000000, 0xFFFFFF, M64] + [rng.getrandbits(rng.randrange(1, 65)) for _ in range(500)]:
         cmds.append("A %d" % v)
@@ -370,6 +378,11 @@ def gen_stream(rng, tier):
                 cmds.append("F %d %d" % (n, v ^ (1 << b)))
         for _ in range(300):
             cmds.append("F %d %d" % (n, rng.getrandbits(n)))
+        if n == 16:
+            # uint32 argument with garbage above bit 15 (C17_fp16_upper_bits_ignored)
+            for i in rng.sample(range(256), 64):
+                cmds.append("F 16 %d" % (vfp_expand(16, i) | (rng.getrandbits(16) << 16)))
+                cmds.append("F 16 %d" % ((vfp_expand(16, i) ^ (1 << rng.randrange(16))) | (0xFFFF << 16)))
     # B
     for i in range(256):
         v = sum(0xFF << (8 * k) for k in range(8) if (i >> k) & 1)
@@ -405,7 +418,7 @@ def gen_stream(rng, tier):
     # X: bit-field aliases through the real a64::Assembler: every (lsb, width) incl. one beyond the register, both sizes
     for x in (0, 1):
         size = 64 if x else 32
-        for kind in range(13):
+        for kind in range(14):
             if kind >= 10:
                 for sh in list(range(size + 2)) + [1 << 32, (1 << 32) + 1, M64]:
                     cmds.append("X %d %d %d 0" % (kind, x, sh))
@@ -419,7 +432,7 @@ def gen_stream(rng, tier):
                 cmds.append("X %d %d %d %d" % (kind, x, a, b))
     # Y: x86 ALU group r/m, imm through the real x86::Assembler, at the int8 / int16 / int32 / uint32 limits (both signs)
     ypts = set()
-    for base in (0, 1 << 7, -(1 << 7), 1 << 8, 1 << 15, -(1 << 15), 1 << 16, 1 << 31, -(1 << 31), 1 << 32, -(1 << 32), (1 << 63) - 1, -(1 << 63),
+    for base in (0, 31, 32, 63, 64, 257, 1 << 7, -(1 << 7), 1 << 8, 1 << 15, -(1 << 15), 1 << 16, 1 << 31, -(1 << 31), 1 << 32, -(1 << 32), (1 << 63) - 1, -(1 << 63),
                  0xFFFFFF80, 0xFFFF8000, 0xFF80, 0xFFFFFFFF, 0x7FFFFFFF):
         for d in (-2, -1, 0, 1, 2):
             if -(1 << 63) <= base + d < (1 << 63):
@@ -437,6 +450,13 @@ def gen_stream(rng, tier):
                         cmds.append("Y %d 0 %d %d %d %d %d" % (op, size, acc, optsize, longform, imm))
                 for longform in (0, 1):
                     cmds.append("Y %d 1 %d 0 0 %d %d" % (op, size, longform, imm))
+        for longform in (0, 1):
+            for op in (12, 13, 14, 15):
+                for size in (1, 2, 4, 8):
+                    cmds.append("Y %d %d %d %d 0 %d %d" % (op, rng.randrange(2), size, rng.randrange(2), longform, imm))
+        for op in (16, 17):
+            for size in (2, 4, 8):
+                cmds.append("Y %d %d %d %d 0 0 %d" % (op, rng.randrange(2), size, rng.randrange(2), imm))
         for longform in (0, 1):
             cmds.append("Y 11 0 8 0 0 %d %d" % (longform, imm))
             for size in (2, 4, 8):
@@ -593,6 +613,8 @@ def judge(cmd, ans, logical_sets):
         return None if bool(ok) == exp else ("C17/add-sub-imm", "%s -> %d" % (cmd, ok))
     if c[0] == "F":
         n, v = int(c[1]), int(c[2]); ok, e = int(a[1]), int(a[2])
+        if n == 16:
+            v &= 0xFFFF      # the half-precision functions take a uint32 and read the value from its low 16 bits
         valid = {vfp_expand(n, i): i for i in range(256)}
         if ok:
             if valid.get(v) != e:
@@ -653,6 +675,16 @@ def judge(cmd, ans, logical_sets):
         if not valid:
             key = "C17/bitfield/insert-overflows-register" if 3 <= kind <= 6 and va < size and 1 <= vb <= size else "C17/bitfield/invalid-operands-accepted"
             return (key, "%s (%s) accepted operands that have no encoding (immr=%d imms=%d)" % (cmd, nm, immr, imms))
+        if kind == 13:
+            # EXTR Rd, Rn, Rm, #lsb with Rm = Rn (= register 5 in the harness): result = (Rn:Rm)<lsb+size-1:lsb> = ROR(Rn, lsb)
+            if immr != 5 or imms != va:
+                return ("C17/bitfield/ror-fields", "%s (ror) -> Rm=%d imms=%d" % (cmd, immr, imms))
+            for src in (m, 0x0123456789ABCDEF & m, 1, 1 << (size - 1)):
+                got = (((src << size) | src) >> imms) & m
+                want = ((src >> va) | (src << (size - va))) & m if va else src
+                if got != want:
+                    return ("C17/bitfield/wrong-fields", "%s (ror) -> EXTR lsb=%d of %#x gives %#x, the rotation is %#x" % (cmd, imms, src, got, want))
+            return None
         if 7 <= kind <= 9:
             return None if (immr, imms) == (va, vb) else ("C17/bitfield/raw-fields", "%s -> immr=%d imms=%d" % (cmd, immr, imms))
         for src in (m, 0x0123456789ABCDEF & m, 0xF0E1D2C3B4A59687 & m, 1, 1 << (size - 1), 0xAAAAAAAAAAAAAAAA & m):
@@ -728,6 +760,31 @@ def model_cmd(model):
     return [model, T32_VARIANT["v"], X86_MEM_CHECKED["v"], X86_TM_CHECKED["v"]]
 
 
+def targeted_layout_search(impl, logical_sets):
+    """The layout tie broke (translator cannot read the source / extracted table differs): search the formats of the table for
+    a concrete failing displacement -- every single-bit offset of both signs, the limits, with zero and all-ones old bits outside
+    the field -- judged by the architectural oracle.  Returns (cmd, answer, (key, what)) or None."""
+    cmds = []
+    for (nm, ty, vs, bits, sh, dl) in USED_FORMATS + OTHER_FORMATS:
+        if TYN[ty] not in LAYOUT_TYPE_TO_TY.values() or vs != 4:
+            continue
+        fm = field_mask(ty, vs, bits, sh)
+        offs = set([0])
+        for k in range(0, bits + dl + 1):
+            for sgn in (1, -1):
+                for d in (-1, 0, 1):
+                    offs.add(sgn * (1 << k) + (d << dl))
+        for off in sorted(offs):
+            for old in (0, 0xFFFFFFFF & ~fm):
+                cmds.append("V %d %d %d %d %d %d %d" % (ty, vs, bits, sh, dl, off, old))
+    outs = vlib.sh([impl], inp="\n".join(cmds) + "\n", timeout=300)[1].split("\n")
+    for c, a in zip(cmds, outs):
+        j = judge(c, a, logical_sets)
+        if j is not None:
+            return (c, a, j)
+    return None
+
+
 def probe_x86_test_mov(impl):
     """Are `test rax, 0x100000000`, `test qword ptr [rcx], 0x100000000`, `mov qword ptr [rcx], 0x100000000` refused (fixed) or truncated (pinned)?"""
     out = vlib.sh([impl], inp="Y 8 0 8 1 0 0 4294967296\nY 8 1 8 0 0 0 4294967296\nY 9 1 8 0 0 0 4294967296\n"
@@ -745,6 +802,25 @@ def judge_test_mov(cmd, nm, op, form, size, acc, optsize, longform, imm, ok, has
     """TEST r/m, imm (A8/A9, F6/F7 /0) and MOV r/m, imm (B0+r, B8+r, C6/C7 /0) per the SDM."""
     int32 = -(1 << 31) <= imm < (1 << 31)
     mask = lambda n: (1 << (8 * n)) - 1
+    if op >= 12:
+        # shifts / rotates / double shifts: the CPU masks the count to 5 bits (6 with REX.W); the requested count is imm
+        if not ok:
+            return ("C17/x86-imm/spurious-refusal", "%s (%s) refused although an encoding exists" % (cmd, nm))
+        byteop = opc in (0xC0, 0xD0)
+        opsize = 8 if rexw else (2 if has66 else (1 if byteop else 4))
+        cmask = 63 if size == 8 else 31
+        if op >= 16:
+            good = opc == (0x0FA4 if op == 16 else 0x0FAC) and immsize == 1 and not short
+            count = field & cmask
+        else:
+            good = not short and ((opc in (0xD0, 0xD1) and immsize == 0 and not longform) or (opc in (0xC0, 0xC1) and immsize == 1)) and \
+                (opc in (0xC0, 0xD0)) == (size == 1)
+            count = 1 if immsize == 0 else field & cmask
+        if not good or opsize != size:
+            return ("C17/x86-imm/shift-opcode", "%s (%s) -> 66=%d REX.W=%d opcode %#x with %d immediate bytes" % (cmd, nm, has66, rexw, opc, immsize))
+        if count != imm % (cmask + 1):
+            return ("C17/x86-imm/shift-count", "%s (%s) -> opcode %#x ib = %#x: the CPU shifts by %d, the requested count masks to %d" % (cmd, nm, opc, field, count, imm % (cmask + 1)))
+        return None
     if op in (10, 11):
         if op == 11:
             size = 8
@@ -859,18 +935,63 @@ def run(ck):
     rng = random.Random(ck.seed)
     # ---- translator tie: the field layouts of encode_offset32, re-extracted from the source text of the working tree
     gen_dir = None; layout_broken = None; layout_info = {"status": "same as committed snapshot"}
+    broken_theorems = {}      # theorem name -> why
+    layouts = fixup = arm = None
     try:
         layouts, text_changes = c17_layouts.extract(vlib.REPO)
-        regen = ck.coq_regen({"C17Layouts.v": c17_layouts.render(layouts)}, order=["C17Layouts.v"])
+    except c17_layouts.TranslatorError as e:
+        layout_broken = "tools/c17_layouts.py cannot read encode_offset32 any more: %s" % e
+        broken_theorems["C17_layouts_current"] = layout_broken
+        text_changes = []
+    try:
+        fixup = c17_layouts.extract_fixup(vlib.REPO)
+    except c17_layouts.TranslatorError as e:
+        broken_theorems["C17_fixup_current"] = "tools/c17_layouts.py cannot read fixup.h any more: %s" % e
+    try:
+        arm = c17_layouts.extract_armutils(vlib.REPO)
+    except c17_layouts.TranslatorError as e:
+        broken_theorems["C17_armutils_current"] = "tools/c17_layouts.py cannot read armutils.h any more: %s" % e
+    used = None
+    try:
+        used = c17_layouts.extract_used_formats(vlib.REPO)
+        # the formats the stream sweeps as "used by the backends" must contain every extracted one
+        have = set((TYN_COQ[u[0]],) + tuple(u[1:]) for u in used)
+        swept = set((ty, vs, bits, sh, dl) for (nm, ty, vs, bits, sh, dl) in USED_FORMATS + OTHER_FORMATS)
+        for u in sorted(have - swept):
+            ck.violation("C17/generator/used-format-not-swept", "the backends build the format %s, which the stream does not sweep" % (u,),
+                         {"format": list(u), "broken": "USED_FORMATS of tools/checks/c17.py"}, no_input=True)
+    except c17_layouts.TranslatorError as e:
+        broken_theorems["C17_used_formats_current"] = "tools/c17_layouts.py cannot read the reset_to_* call sites any more: %s" % e
+    bfr = None
+    try:
+        bfr = c17_layouts.extract_bf_rules(vlib.REPO)
+    except c17_layouts.TranslatorError as e:
+        broken_theorems["C17_bf_rules_current"] = "tools/c17_layouts.py cannot read the bit-field alias cases of a64assembler.cpp any more: %s" % e
+    if layouts is not None and fixup is not None and arm is not None and used is not None and bfr is not None:
+        regen = ck.coq_regen({"C17Layouts.v": c17_layouts.render(layouts, fixup, arm, used, bfr)}, order=["C17Layouts.v"])
         if regen is not None:
             gen_dir, failed, rlog = regen
             layout_info["status"] = "differs from committed snapshot, recompiled"
             if failed:
-                layout_broken = "the layouts extracted from codewriter.cpp are not the ones the theorems are about: " + rlog[-600:]
                 gen_dir = None
-        for (key, got, want) in text_changes:
-            ck.violation("C17/translator/case-text-changed/" + key, "encode_offset32 case %s reads %r; the model was transcribed from %r" % (key, got, want),
-                         {"case": key, "now": got, "transcribed_from": want, "broken": "hand transcription of the case in OffsetModel.v"}, no_input=True)
+                # which of the three reflexivity lemmas is it?  compare each rendered part with the committed text
+                committed = open(os.path.join(vlib.COQ, "gen", "C17Layouts.v")).read()
+                parts = {"C17_layouts_current": c17_layouts.render(layouts).split("Definition gen_layouts", 1)[1],
+                         "C17_fixup_current": c17_layouts.render(layouts, fixup).split("Definition gen_otype_order", 1)[1],
+                         "C17_armutils_current": c17_layouts.render(layouts, fixup, arm).split("Definition gen_fp_params", 1)[1],
+                         "C17_used_formats_current": c17_layouts.render(layouts, fixup, arm, used).split("Definition gen_used_formats", 1)[1].split("(* asmjit/arm/a64assembler.cpp")[0],
+                         "C17_bf_rules_current": c17_layouts.render(layouts, fixup, arm, used, bfr).split("Definition gen_bf_rules", 1)[1]}
+                for k_ in ("C17_layouts_current", "C17_fixup_current", "C17_armutils_current"):
+                    parts[k_] = parts[k_].split("\n(* ")[0]
+                for thm, part in parts.items():
+                    if part not in committed:
+                        broken_theorems[thm] = "the data extracted from the source are not the ones the theorems are about: " + rlog[-500:]
+                if "C17_layouts_current" in broken_theorems:
+                    layout_broken = broken_theorems["C17_layouts_current"]
+    for (key, got, want) in text_changes:
+        ck.violation("C17/translator/case-text-changed/" + key, "encode_offset32 case %s reads %r; the model was transcribed from %r" % (key, got, want),
+                     {"case": key, "now": got, "transcribed_from": want, "broken": "hand transcription of the case in OffsetModel.v"}, no_input=True)
+    if layouts is not None:
         # the masks the source implies must be the masks the python oracle judges with (two independent descriptions)
         for tname, m in c17_layouts.masks(layouts).items():
             tyn = LAYOUT_TYPE_TO_TY[tname]
@@ -880,13 +1001,24 @@ def run(ck):
                 ck.violation("C17/translator/mask-vs-oracle/" + tyn, "the source text of case %s sets bits %#x, the architectural field mask is %#x" % (tname, m, om),
                              {"type": tname, "source_mask": m, "oracle_mask": om, "broken": "field layout of " + tname}, no_input=True)
         layout_info["masks"] = {k: hex(v) for k, v in c17_layouts.masks(layouts).items()}
-    except c17_layouts.TranslatorError as e:
-        layout_broken = "tools/c17_layouts.py cannot read encode_offset32 any more: %s" % e
+    layout_info["extracted"] = {"layout_cases": None if layouts is None else len(layouts),
+                                "offset_type_enumerators": None if fixup is None else len(fixup[0]),
+                                "sign_bit_types": None if fixup is None else len(fixup[1]),
+                                "fp8_parameter_rows": None if arm is None else len(arm[0]),
+                                "formats_built_by_the_backends": None if used is None else len(used),
+                                "bit_field_alias_rules": None if bfr is None else len(bfr)}
+    # ---- which hand transcription is stale?  (names the function and the first differing statement; the verdict on the
+    # behaviour comes from the stream and the theorems)
+    stale, n_regions = c17_transcribed.compare(vlib.REPO)
+    for (name, modelfile, desc) in stale:
+        ck.violation("C17/transcription-stale/" + name.replace(" ", "-"),
+                     "the C++ of %s changed since %s was transcribed from it: %s" % (name, modelfile, desc),
+                     {"region": name, "model": modelfile, "detail": desc, "broken": "hand transcription " + modelfile}, no_input=True)
     obl = ck.coq_properties(gen_dir=gen_dir)
-    if layout_broken:
-        layout_info["status"] = "BROKEN"
+    if broken_theorems:
+        layout_info["status"] = "BROKEN: " + ", ".join(sorted(broken_theorems))
         for o in obl:
-            if o["name"] in LAYOUT_DEPENDENT:
+            if o["name"] in broken_theorems:
                 o["ok"] = False
     ck.log("layout translator: %s; theorems: %d, failed: %d" % (layout_info["status"], len(obl), len([o for o in obl if not o["ok"]])))
     impl = ck.build_harness("c17", ["c17_harness.cpp"])
@@ -910,7 +1042,6 @@ def run(ck):
 
     cmds = gen_stream(rng, ck.tier)
     # corpus first
-    import os
     corpus = os.path.join(vlib.VERIF, "corpus", "C17.txt")
     if os.path.exists(corpus):
         cmds = [l.strip() for l in open(corpus) if l.strip() and not l.startswith("#")] + cmds
@@ -976,8 +1107,16 @@ def run(ck):
             j = judge(cmd, x, logical_sets)
             if j is not None:
                 ck.violation(j[0], j[1], {"command": cmd, "impl": x, "model": y})
+    layout_witness = None
+    if layout_broken or any(x[0] == "encode_offset32" for x in stale):
+        layout_witness = targeted_layout_search(impl, logical_sets)
     for o in ck.proof_failures():
-        ck.violation("C17/proof/" + o["name"], "theorem %s no longer checks (%s)" % (o["name"], (layout_broken if (layout_broken and o["name"] in LAYOUT_DEPENDENT) else getattr(ck, "coq_log", ""))[-800:]),
+        if o["name"] == "C17_layouts_current" and layout_broken and layout_witness is not None:
+            c_, a_, j_ = layout_witness
+            ck.violation("C17/proof/" + o["name"], "theorem %s no longer checks (%s); concrete failing input found by the targeted search: %s" % (o["name"], layout_broken[-300:], j_[1]),
+                         {"broken": "theorem " + o["name"], "command": c_, "impl": a_, "oracle": list(j_)})
+            continue
+        ck.violation("C17/proof/" + o["name"], "theorem %s no longer checks (%s)" % (o["name"], (broken_theorems.get(o["name"]) or getattr(ck, "coq_log", ""))[-800:]),
                      {"broken": "theorem " + o["name"], "file": "coq/theories/Properties/Properties_C17.v"}, no_input=True)
     samples = [{"cmd": c, "impl": x, "model": y} for c, x, y in list(zip(cmds, ri, rm))[:3] + list(zip(cmds, ri, rm))[len(cmds) // 2: len(cmds) // 2 + 3]]
     return ck.finish(
@@ -997,7 +1136,7 @@ def run(ck):
          "traces_validated_against_impl": len(cmds), "model_vs_impl_disagreements": disagreements,
          "formats": [f[0] for f in USED_FORMATS + OTHER_FORMATS],
          "limit_cases_present": lim_counters, "limit_cases_total": len(lim_counters), "limit_cases_missing": len(lim_missing),
-         "layout_translator": layout_info, "t32_variant_of_tree": T32_VARIANT["v"], "x86_mem_imm64_test_of_tree": X86_MEM_CHECKED["v"], "x86_test_mov_imm64_test_of_tree": X86_TM_CHECKED["v"],
+         "layout_translator": layout_info, "transcribed_regions_compared_with_snapshot": n_regions, "transcribed_regions_changed": [x[0] for x in stale], "t32_variant_of_tree": T32_VARIANT["v"], "x86_mem_imm64_test_of_tree": X86_MEM_CHECKED["v"], "x86_test_mov_imm64_test_of_tree": X86_TM_CHECKED["v"],
          "bfm_pseudocode_cross_validation_cases": n_z, "bfm_pseudocode_cross_validation_mismatches": bad_z, "llvm_mc_t32_reference_cases": n_ref, "llvm_mc_t32_reference_errors": len(ref_errors)},
         assumptions=["the C++ harness calls the real functions of /repo's working tree (CodeWriterUtils::write_offset, arm::Utils::*, "
                      "a64 encode_mov_sequence_*/encode_lmh via #include of a64assembler.cpp)",
